@@ -51,6 +51,8 @@ type FidCase struct {
 	// the error class FailKind; a read request that met a fault may be refused, but what it serves must be right
 	FailGets []int
 	FailKind int
+	// Verbosity is the process-wide klog -v level
+	Verbosity int
 }
 
 type FidItem struct {
@@ -87,6 +89,9 @@ func genFid(t *rapid.T) FidCase {
 	c.ClockMs = rapid.Int64Range(1, 4102444800000).Draw(t, "clock")
 	c.Indirect = rapid.IntRange(0, 2).Draw(t, "indirect") == 0
 	c.Metrics = rapid.IntRange(0, 2).Draw(t, "metrics") == 0
+	if rapid.IntRange(0, 3).Draw(t, "verbose") == 0 {
+		c.Verbosity = rapid.IntRange(1, 5).Draw(t, "v")
+	}
 	if c.Indirect {
 		if rapid.Bool().Draw(t, "lru") {
 			c.CacheLRU = rapid.SampledFrom([]int{1, 1, 2, 64}).Draw(t, "lrusize")
@@ -126,6 +131,11 @@ func addChainBody(chain [][]byte) []byte {
 }
 
 func checkFid(t *testing.T, c FidCase) (v harness.Verdict) {
+	if c.Verbosity > 0 {
+		harness.SetKlogVerbosity(c.Verbosity)
+		defer harness.SetKlogVerbosity(0)
+		v.Class(fmt.Sprintf("klog-v=%d", c.Verbosity))
+	}
 	ctfe.MaxGetEntriesAllowed = c.Max
 	setAlign(c.Align)
 	setMetrics(c.Metrics)
